@@ -159,6 +159,8 @@ def canon_err(s):
         return s
     if s.startswith("hang"):
         return "hang:never-returns:"
+    if s.startswith("crash"):
+        return "crash:the-process-died-of-a-signal:"
     k, e, d = s.split(":", 2)
     return "%s:%s:%s" % (k, e, ORIGIN.get(d, d) if k == "syscall" else "")
 
